@@ -3,6 +3,6 @@
 tier=$1; seeds=$2; props=$3
 mkdir -p sweep_logs
 for s in $seeds; do for p in $props; do
-  VERIF_SEED=$s timeout 5400 ./check $p --tier $tier --no-evidence > sweep_logs/${tier}_${p}_s$s.log 2>&1
+  VERIF_SEED=$s timeout 5400 ./check $p --tier $tier --no-evidence ${SWEEP_JOBS:+--jobs $SWEEP_JOBS} > sweep_logs/${tier}_${p}_s$s.log 2>&1
   echo "$tier $p seed=$s rc=$? $(grep -c '^VIOLATION' sweep_logs/${tier}_${p}_s$s.log) violations $(grep -c '^HARNESS' sweep_logs/${tier}_${p}_s$s.log) harness-errors $(grep -E 'tier=' sweep_logs/${tier}_${p}_s$s.log | sed 's/.*, //')"
 done; done
